@@ -74,6 +74,15 @@ reg("C02", "exploration",
     BASE_NOTE + "Handler exceptions are swallowed by recording exception handlers (the default configuration logs them).",
     "DESIGN.md 3/C02")
 
+reg("C08", "exploration",
+    "Hypothesis model-based histories: from-scratch reachability model over a pool of interlinked objects decides, after every mutation, the step's own event and a probe of every pool object",
+    "Generated expressions (series/parallel/items/metadata links/anytrait, '.' and ':', DSL text or expression API) on pools "
+    "with sharing, duplicates and cycles; after each of <=25 mutations every pool object (reachable or detached) is probed "
+    "and must call the handler exactly once iff the model reaches it with notify. Sampling; histories are cut at "
+    "self-referential steps while known finding F16 is active.",
+    BASE_NOTE + "The reachability model is my reading of the user manual's semantics of observe expressions.",
+    "DESIGN.md 3/C08")
+
 
 def main():
     props = [json.loads(l) for l in open(os.path.join(ROOT, "properties.jsonl"))]
